@@ -5,7 +5,7 @@ from common import *
 import procgen as pg
 import hvgen
 
-PROP_MODULES = ["HvsrVerif.Props.C13"]
+PROP_MODULES = ["HvsrVerif.Props.C13", "HvsrVerif.Props.C13Norm"]
 BRIDGE_MODULES = ["HvsrVerif.Bridge.C13"]
 COMPS = ["ns", "ew", "vt"]
 
@@ -45,7 +45,8 @@ def run(ctx):
     import hvsrpy
     ctx.rule = ("cases = lists of 2-10 windows (3 components, 60-400 samples, planted transients and quiet gaps) x STA/LTA lengths not exceeding the window "
                 "(incl. lengths that are not multiples of dt and the 1 s @ 100 Hz = 99 points case) x limits x component subsets x {no HVSR object, traditional, azimuthal}; "
-                "and maximum-value rejection (normalised / absolute); compared: identity (`is`) and order of the returned objects, masks on every azimuth, decisions vs the model; "
+                "and maximum-value rejection (normalised / absolute); criteria that keep every window / no window in ~12 % / ~6 %; HVSR objects arriving with masks "
+                "left by an earlier rejection in half of the cases; compared: identity (`is`) and order of the returned objects, masks on every azimuth, decisions vs the model; "
                 "non-trivial = >=1 kept and >=1 rejected window; distinct by input hash")
     ctx.trusted += ["Python float floor division `seconds // dt` is the floor of the exact quotient (mirrored with exact rationals)"]
     rng = np.random.default_rng(ctx.seed)
@@ -66,18 +67,31 @@ def run(ctx):
                 hv = hvsrpy.HvsrTraditional(freq, hvgen.gen_curve_set(rng, freq, nw))
             else:
                 hv = hvsrpy.HvsrAzimuthal([hvsrpy.HvsrTraditional(freq, hvgen.gen_curve_set(rng, freq, nw)) for _ in range(2)], [0.0, 90.0])
+        dirty = False
+        if hv is not None and rng.random() < 0.5:
+            # the object arrives with masks left by an earlier rejection (or a window without a peak): they must END equal to this selection
+            dirty = True
+            for h in (hv.hvsrs if kind == "A" else [hv]):
+                k = int(rng.integers(0, nw))
+                h.valid_window_boolean_mask[k] = False
+                h.valid_peak_boolean_mask[k] = False
+        extreme = rng.random()     # < 0.12: a criterion nothing violates (every window kept); > 0.94: one everything violates
         if i % 4 != 3:
             dur = (nsmp - 1) * dt
             sta = float(rng.choice([rng.uniform(2 * dt, dur / 4), 10 * dt, 1.0 if dur > 1.0 else 5 * dt, dur * 2 if rng.random() < 0.1 else 3 * dt]))
             lta = float(rng.choice([rng.uniform(min(sta, dur * 0.5), dur), dur / 2, dur * 3 if rng.random() < 0.1 else dur * 0.9]))
             lo = float(rng.choice([0.2, 0.1, 0.5, rng.uniform(0.05, 0.6)])); hi = float(rng.choice([2.5, 1.5, 4.0, rng.uniform(1.2, 6)]))
+            if extreme < 0.12:
+                lo, hi = 0.0, 1e12
+            elif extreme > 0.94:
+                lo, hi = 0.999, 1.001
             try:
                 kept = hvsrpy.sta_lta_window_rejection(recs, sta_seconds=sta, lta_seconds=lta, min_sta_lta_ratio=lo, max_sta_lta_ratio=hi, components=tuple(comps), hvsr=hv)
                 res = [any(k is r for k in kept) for r in recs]
                 order_ok = [id(k) for k in kept] == [id(r) for r, b in zip(recs, res) if b]
             except (IndexError, ZeroDivisionError, ValueError) as e:
                 kept, res, order_ok = None, "err", True
-            cases.append(dict(kind="stalta", dt=dt, n=nsmp, sta=sta, lta=lta, lo=lo, hi=hi, comps=comps, wins=wins, impl=res, order_ok=order_ok, hv=hv, hvkind=kind))
+            cases.append(dict(kind="stalta", dt=dt, n=nsmp, sta=sta, lta=lta, lo=lo, hi=hi, comps=comps, wins=wins, impl=res, order_ok=order_ok, hv=hv, hvkind=kind, masks_dirty_before=dirty))
             lines.append(f"stalta {hexf(sta)} {hexf(lta)} {hexf(dt)} {hexf(lo)} {hexf(hi)} {wins_tokens(wins, comps)}")
         else:
             normalized = bool(rng.random() < 0.5)
@@ -85,10 +99,14 @@ def run(ctx):
             thr = float(rng.choice([0.9, 0.5, rng.uniform(0.1, 1.0)])) if normalized else float(np.quantile(allmax, rng.uniform(0.2, 0.9)) * rng.uniform(0.9, 1.1))
             if rng.random() < 0.2:     # threshold exactly on a window's maximum (strict '<')
                 thr = float(allmax[int(rng.integers(0, nw))] / (max(allmax) if normalized else 1.0))
+            if extreme < 0.2:
+                thr = 1.5 if normalized else float(max(allmax) * 1.5)        # rejects nothing
+            elif extreme > 0.94:
+                thr = float(min(allmax) * 0.5 / (max(allmax) if normalized else 1.0))   # rejects everything
             kept = hvsrpy.maximum_value_window_rejection(recs, maximum_value_threshold=thr, normalized=normalized, components=tuple(comps), hvsr=hv)
             res = [any(k is r for k in kept) for r in recs]
             order_ok = [id(k) for k in kept] == [id(r) for r, b in zip(recs, res) if b]
-            cases.append(dict(kind="maxval", dt=dt, n=nsmp, thr=thr, normalized=normalized, comps=comps, wins=wins, impl=res, order_ok=order_ok, hv=hv, hvkind=kind))
+            cases.append(dict(kind="maxval", dt=dt, n=nsmp, thr=thr, normalized=normalized, comps=comps, wins=wins, impl=res, order_ok=order_ok, hv=hv, hvkind=kind, masks_dirty_before=dirty))
             lines.append(f"maxval {hexf(thr)} {1 if normalized else 0} {wins_tokens(wins, comps)}")
     outs = run_driver(lines)
     for c, o in zip(cases, outs):
@@ -106,7 +124,7 @@ def run(ctx):
         ctx.case((c["kind"], c["comps"], c.get("sta"), c.get("lta"), c.get("thr"), c["wins"]), nontrivial=(res != "err" and any(res) and not all(res)),
                  sample=dict(kind=c["kind"], n_windows=len(c["wins"]), n=c["n"], dt=c["dt"], comps=c["comps"], sta=c.get("sta"), lta=c.get("lta"), lo=c.get("lo"), hi=c.get("hi"),
                              thr=c.get("thr"), normalized=c.get("normalized"), kept=res, hvsr=c["hvkind"]))
-        ctx.count("kind:" + c["kind"]); ctx.count("hvsr:" + c["hvkind"]); ctx.count("result:" + ("err" if res == "err" else "mixed" if any(res) and not all(res) else "uniform"))
+        ctx.count("kind:" + c["kind"]); ctx.count("hvsr:" + c["hvkind"]); ctx.count("masks_before:" + ("dirty" if c["masks_dirty_before"] else "clean")); ctx.count("result:" + ("err" if res == "err" else "mixed" if any(res) and not all(res) else "uniform"))
         ctx.traces += 1
         if not c["order_ok"]:
             ctx.violation("returned-in-original-order-as-same-objects", dict(case=pub), seam="returned list")
